@@ -4,7 +4,7 @@
     enable / disable calls; disabling takes a list's rules out of force and
     enabling puts them back. *)
 From Coq Require Import NArith List Bool Lia.
-From AGH Require Import Base.Run Model.RuleListParser Model.Refresh Proofs.RuleListParser.
+From AGH Require Import Base.Run Model.RuleListParser Model.Refresh Proofs.RuleListParser Proofs.RuleListWrite.
 Import ListNotations.
 Local Open Scope N_scope.
 
@@ -69,21 +69,65 @@ Section Refresh.
   (** The enumerated failures: no reader (connection error, bad status,
       unreadable or unsafe file), a reader that ends in an error at any byte
       position, content the parser rejects (HTML, binary, over-long line);
-      and a pending file that cannot replace the list's file. *)
+      a pending file that cannot replace the list's file; and a pending file
+      that does not take what the parser writes into it. *)
   Definition fails (o : outcome) : Prop :=
     match o with
     | OOpenErr => True
     | OBody d re => snd (parse crc d re) <> None
     | ORenameFail _ => True
+    | OWriteFail d re cap => snd (fst (parse_w crc cap d re)) <> None
     end.
 
   Definition failed_upd (l : flist) : upd := {| u_updated := false; u_err := true; u_list := l |}.
 
   Lemma update_one_failed l o fs : fails o -> update_one l o fs = (failed_upd l, fs).
   Proof.
-    unfold Refresh.update_one, fails. destruct o as [|d re|d]; auto.
-    destruct (parse crc d re) as [st [e|]]; cbn; [reflexivity|congruence].
+    unfold Refresh.update_one, fails. destruct o as [|d re|d|d re cap]; auto.
+    - destruct (parse crc d re) as [st [e|]]; cbn; [reflexivity|congruence].
+    - destruct (parse_w crc cap d re) as [[st [e|]] part]; cbn; [reflexivity|congruence].
   Qed.
+
+  (** A pending file with a limit: if what the parser writes fits, the
+      download is that of the same body without a limit; if not, it is a
+      failure. *)
+  Lemma update_one_write l d re cap fs :
+    update_one l (OWriteFail d re cap) fs =
+    if p_written (fst (parse crc d re)) <=? cap then update_one l (OBody d re) fs else (failed_upd l, fs).
+  Proof.
+    unfold Refresh.update_one.
+    destruct (parse_w_cases crc cap d re) as [(G & st & part & E & _)|(L & E)]; rewrite E.
+    - destruct (N.leb_spec (p_written (fst (parse crc d re))) cap); [lia|reflexivity].
+    - destruct (N.leb_spec (p_written (fst (parse crc d re))) cap); [|lia].
+      destruct (parse crc d re) as [st [e|]]; reflexivity.
+  Qed.
+
+  (** The write fails wherever the limit lies before the end of what would be
+      written: before the first byte, inside a line, at a line boundary, one
+      byte before the end. *)
+  Lemma write_failure_fails d re cap :
+    cap < p_written (fst (parse crc d re)) -> fails (OWriteFail d re cap).
+  Proof.
+    intros H. cbn. destruct (parse_w_overflow crc cap d re H) as (st & part & -> & _). cbn. discriminate.
+  Qed.
+
+  Lemma write_failure_any_position d re cap st :
+    parse crc d re = (st, None) -> cap < lenN (output st) -> fails (OWriteFail d re cap).
+  Proof.
+    intros P H. cbn. destruct (parse_w_any_position crc cap d re st P H) as (st' & part & -> & _). cbn. discriminate.
+  Qed.
+
+  (** A limit does not repair a body that fails anyway. *)
+  Lemma write_limit_keeps_failure d re cap : fails (OBody d re) -> fails (OWriteFail d re cap).
+  Proof.
+    cbn. intros F. destruct (parse_w crc cap d re) as [[st [e|]] part] eqn:E; cbn; [discriminate|].
+    apply parse_w_ok in E. destruct E as (E & _). now rewrite E in F.
+  Qed.
+
+  (** The body and the end of the reader an outcome with a reader hands to
+      the parser, every write to the pending file succeeding. *)
+  Definition delivers (o : outcome) (d : bytes) (re : bool) : Prop :=
+    o = OBody d re \/ exists cap, o = OWriteFail d re cap /\ p_written (fst (parse crc d re)) <= cap.
 
   (** A body cut by a read error fails wherever it is cut. *)
   Lemma cut_body_fails d : fails (OBody d true).
@@ -101,23 +145,41 @@ Section Refresh.
     update_one l (OBody d re) fs = ({| u_updated := false; u_err := false; u_list := l |}, fs).
   Proof. intros P E. unfold Refresh.update_one. now rewrite P, E, N.eqb_refl. Qed.
 
+  Lemma update_one_delivers l o d re fs : delivers o d re -> update_one l o fs = update_one l (OBody d re) fs.
+  Proof.
+    intros [->|(cap & -> & L)]; [reflexivity|]. rewrite update_one_write.
+    now rewrite (proj2 (N.leb_le _ _) L).
+  Qed.
+
   (** The file is written only on success, and then with a normal form whose
       re-parse gives the recorded count and checksum; otherwise the structure
       [update] worked on is untouched as well. *)
   Lemma update_one_cases l o fs :
     let '(u, fs') := update_one l o fs in
     (u_updated u = false /\ fs' = fs /\ u_list u = l) \/
-    (exists d re st, o = OBody d re /\ parse crc d re = (st, None) /\ p_sum st <> f_sum l /\
+    (exists d re st, delivers o d re /\ parse crc d re = (st, None) /\ p_sum st <> f_sum l /\
        u_updated u = true /\ u_err u = false /\ u_list u = filled l st /\
        fs' = fset (f_id l) (output st) fs /\
        exists st', parse crc (output st) false = (st', None) /\ output st' = output st /\
                    p_count st' = p_count st /\ p_sum st' = p_sum st).
   Proof.
-    unfold Refresh.update_one. destruct o as [|d re|d]; [now left| |now left].
-    destruct (parse crc d re) as [st [e|]] eqn:P; [now left|].
-    destruct (N.eqb_spec (p_sum st) (f_sum l)); [now left|].
-    right. exists d, re, st. repeat split; auto.
-    destruct (parse_fixed_point crc _ _ _ P) as (st' & A & B & C & D & _). eauto.
+    assert (B : forall d re, delivers o d re ->
+      let '(u, fs') := update_one l (OBody d re) fs in
+      (u_updated u = false /\ fs' = fs /\ u_list u = l) \/
+      (exists d re st, delivers o d re /\ parse crc d re = (st, None) /\ p_sum st <> f_sum l /\
+         u_updated u = true /\ u_err u = false /\ u_list u = filled l st /\
+         fs' = fset (f_id l) (output st) fs /\
+         exists st', parse crc (output st) false = (st', None) /\ output st' = output st /\
+                     p_count st' = p_count st /\ p_sum st' = p_sum st)).
+    { intros d re D. unfold Refresh.update_one.
+      destruct (parse crc d re) as [st [e|]] eqn:P; [now left|].
+      destruct (N.eqb_spec (p_sum st) (f_sum l)); [now left|].
+      right. exists d, re, st. repeat split; auto.
+      destruct (parse_fixed_point crc _ _ _ P) as (st' & A & B & C & D' & _). eauto. }
+    destruct o as [|d re|d|d re cap]; [now left| |now left|].
+    - apply B. now left.
+    - rewrite update_one_write. destruct (N.leb_spec (p_written (fst (parse crc d re))) cap) as [L|G]; [|now left].
+      apply B. right. eauto.
   Qed.
 
   Lemma update_one_id l o fs : f_id (u_list (fst (update_one l o fs))) = f_id l.
@@ -135,8 +197,9 @@ Section Refresh.
   (** The flags and the working copy do not depend on the files. *)
   Lemma update_one_fst l o fs fs2 : fst (update_one l o fs) = fst (update_one l o fs2).
   Proof.
-    unfold Refresh.update_one. destruct o as [|d re|d]; auto.
-    destruct (parse crc d re) as [st [e|]]; auto. destruct (p_sum st =? f_sum l); auto.
+    unfold Refresh.update_one. destruct o as [|d re|d|d re cap]; auto.
+    - destruct (parse crc d re) as [st [e|]]; auto. destruct (p_sum st =? f_sum l); auto.
+    - destruct (parse_w crc cap d re) as [[st [e|]] part]; auto. destruct (p_sum st =? f_sum l); auto.
   Qed.
 
   (** [update] on list [l] touches no file but [l]'s. *)
@@ -389,15 +452,15 @@ Section Quiet.
   (** The source of a list fails, or delivers content with the checksum
       recorded for the list. *)
   Definition no_update (o : outcome) (sum : N) : Prop :=
-    fails crc o \/ exists d re st, o = OBody d re /\ parse crc d re = (st, None) /\ p_sum st = sum.
+    fails crc o \/ exists d re st, delivers crc o d re /\ parse crc d re = (st, None) /\ p_sum st = sum.
 
   Lemma update_one_no_update l o fs : no_update o (f_sum l) ->
     u_updated (fst (update_one l o fs)) = false /\ snd (update_one l o fs) = fs /\
     u_list (fst (update_one l o fs)) = l.
   Proof.
-    intros [F|(d & re & st & -> & P & E)].
+    intros [F|(d & re & st & D & P & E)].
     - now rewrite update_one_failed.
-    - now rewrite (update_one_same_checksum crc l d re st fs P E).
+    - rewrite (update_one_delivers crc l o d re fs D). now rewrite (update_one_same_checksum crc l d re st fs P E).
   Qed.
 
   Lemma update_all_quiet i oc : forall ws fs,
@@ -520,11 +583,15 @@ Section Meta.
     fentry j fsA = fentry j fsB ->
     fentry j (snd (update_one w o fsA)) = fentry j (snd (update_one w o fsB)).
   Proof.
-    intros E. unfold Refresh.update_one. destruct o as [|d re|d]; auto.
-    destruct (parse crc d re) as [st [e|]]; auto. destruct (p_sum st =? f_sum w); auto. cbn [snd].
-    destruct (N.eq_dec (f_id w) j) as [<-|Nj].
-    - rewrite !fentry_fset_eq. now rewrite (fgen_of_fentry _ _ _ E).
-    - now rewrite !fentry_fset_ne.
+    intros E.
+    assert (B : forall st : pstate,
+      fentry j (fset (f_id w) (output st) fsA) = fentry j (fset (f_id w) (output st) fsB)).
+    { intros st. destruct (N.eq_dec (f_id w) j) as [<-|Nj].
+      - rewrite !fentry_fset_eq. now rewrite (fgen_of_fentry _ _ _ E).
+      - now rewrite !fentry_fset_ne. }
+    unfold Refresh.update_one. destruct o as [|d re|d|d re cap]; auto.
+    - destruct (parse crc d re) as [st [e|]]; auto. destruct (p_sum st =? f_sum w); auto. cbn [snd]. apply B.
+    - destruct (parse_w crc cap d re) as [[st [e|]] part]; auto. destruct (p_sum st =? f_sum w); auto. cbn [snd]. apply B.
   Qed.
 
   Lemma find_id_none {A} (key : A -> N) j (ws : list A) :
@@ -764,9 +831,11 @@ Section Meta.
 
   Lemma update_one_err_fails l o fs : u_err (fst (update_one l o fs)) = true -> fails crc o.
   Proof.
-    unfold Refresh.update_one, fails. destruct o as [|d re|d]; auto.
-    destruct (parse crc d re) as [st [e|]]; cbn [snd]; [intros _; discriminate|].
-    destruct (p_sum st =? f_sum l); cbn; discriminate.
+    unfold Refresh.update_one, fails. destruct o as [|d re|d|d re cap]; auto.
+    - destruct (parse crc d re) as [st [e|]]; cbn [snd]; [intros _; discriminate|].
+      destruct (p_sum st =? f_sum l); cbn; discriminate.
+    - destruct (parse_w crc cap d re) as [[st [e|]] part]; cbn [fst snd]; [intros _; discriminate|].
+      destruct (p_sum st =? f_sum l); cbn; discriminate.
   Qed.
 
   (** The call keeps the entry in step with the files. *)
@@ -897,14 +966,14 @@ Section Meta.
   Theorem stored_content_not_rewritten b a force due oc st l c d re pst :
     wf st -> In l (r_block st ++ r_allow st) -> f_enabled l = true ->
     fget (f_id l) (r_files st) = Some c ->
-    oc (f_id l) = OBody d re -> parse crc d re = (pst, None) -> output pst = c ->
+    delivers crc (oc (f_id l)) d re -> parse crc d re = (pst, None) -> output pst = c ->
     let st' := refresh b a force due oc st in
     fentry (f_id l) (r_files st') = fentry (f_id l) (r_files st) /\
     In l (r_block st' ++ r_allow st').
   Proof.
     intros [ND OK] Hin En G Ho P Out st'.
     assert (Q : forall l', In l' (r_block st ++ r_allow st) -> f_id l' = f_id l -> no_update crc (oc (f_id l)) (f_sum l')).
-    { intros l' Hin' Hid. right. exists d, re, pst. repeat split; auto.
+    { intros l' Hin' Hid. right. exists d, re, pst. split; [exact Ho|]. split; [exact P|].
       assert (l' = l); [|subst l'].
       { clear - ND Hin Hin' Hid. induction (r_block st ++ r_allow st) as [|x xs IH]; [contradiction|].
         cbn in ND. inversion ND as [|? ? Hn ND']; subst.
